@@ -1,0 +1,98 @@
+//go:build verif
+
+package table
+
+import (
+	enc "github.com/named-data/ndnd/std/encoding"
+)
+
+// VerifPitEntry is a projection of one PIT entry.
+type VerifPitEntry struct {
+	Name        enc.Name
+	CanBePrefix bool
+	MustBeFresh bool
+	Hint        enc.Name
+	Token       uint32
+	Satisfied   bool
+	Scheduled   bool
+	SchedAt     int64 // unix nano; valid if Scheduled
+	InFaces     []uint64
+	OutFaces    []uint64
+}
+
+// VerifPitCsShape is a white-box walk of the PIT-CS tree.
+type VerifPitCsShape struct {
+	Nodes      int // nodes excluding the root
+	DeadLeaves int // leaf nodes (not root) with neither PIT entries nor a CS entry
+	Entries    []VerifPitEntry
+	CsNames    []enc.Name
+	LruLen     int
+	TokenMap   int
+	QueueLen   int
+	NPit, NCs  int
+}
+
+func (p *PitCsTree) VerifShape() VerifPitCsShape {
+	var s VerifPitCsShape
+	var walk func(n *pitCsTreeNode, name enc.Name)
+	walk = func(n *pitCsTreeNode, name enc.Name) {
+		if n.parent != nil {
+			s.Nodes++
+			if len(n.children) == 0 && len(n.pitEntries) == 0 && n.csEntry == nil {
+				s.DeadLeaves++
+			}
+		}
+		for _, e := range n.pitEntries {
+			ve := VerifPitEntry{Name: e.encname, CanBePrefix: e.canBePrefix, MustBeFresh: e.mustBeFresh,
+				Hint: e.forwardingHintNew, Token: e.token, Satisfied: e.satisfied, Scheduled: e.pqItem != nil}
+			if e.pqItem != nil {
+				ve.SchedAt = e.pqItem.VerifPriority()
+			}
+			for f := range e.inRecords {
+				ve.InFaces = append(ve.InFaces, f)
+			}
+			for f := range e.outRecords {
+				ve.OutFaces = append(ve.OutFaces, f)
+			}
+			s.Entries = append(s.Entries, ve)
+		}
+		if n.csEntry != nil {
+			s.CsNames = append(s.CsNames, name)
+		}
+		for _, c := range n.children {
+			walk(c, append(append(enc.Name{}, name...), *c.component))
+		}
+	}
+	walk(p.root, enc.Name{})
+	if l, ok := p.csReplacement.(*CsLRU); ok {
+		s.LruLen = l.queue.Len()
+	}
+	s.TokenMap = len(p.pitTokenMap)
+	s.QueueLen = p.pitExpiryQueue.Len()
+	s.NPit = p.nPitEntries
+	s.NCs = p.nCsEntries
+	return s
+}
+
+func (d *DeadNonceList) VerifLen() int { return len(d.list) }
+
+// VerifResetRib replaces the global RIB with an empty one.
+func VerifResetRib() {
+	Rib = RibTable{RibEntry: RibEntry{children: map[*RibEntry]bool{}}}
+}
+
+// VerifRibNodes counts RIB tree nodes (excluding the root) and those without routes and children.
+func VerifRibNodes() (nodes int, dead int) {
+	var walk func(e *RibEntry)
+	walk = func(e *RibEntry) {
+		for c := range e.children {
+			nodes++
+			if len(c.children) == 0 && len(c.routes) == 0 {
+				dead++
+			}
+			walk(c)
+		}
+	}
+	walk(&Rib.RibEntry)
+	return
+}
